@@ -78,7 +78,7 @@ def gen_model(ch: Chooser, excl=()):
             types.append({"name": f"t{len(types)}", "mod": i, "extends": None, "comps": [], "meta": {}})
         for _ in range(ch.count(0, 4)):
             procs.append({"name": f"p{len(procs)}", "mod": i, "argtype": None, "calls": [], "use": None,
-                          "private": False, "meta": {}, "generic": None})
+                          "private": False, "meta": {}, "generic": None, "fn": False, "bound": None, "internals": []})
     # submodules and separate module procedures
     for i, m in enumerate(mods):
         if ch.bool(1, 3):
@@ -101,11 +101,40 @@ def gen_model(ch: Chooser, excl=()):
                 p["argtype"] = at
                 p["generic"] = f"g{len(generics)}"
             generics.append({"name": f"g{len(generics)}", "mod": i, "specifics": [p["name"] for p in spec], "meta": {}})
+    # type-bound procedures: simple bindings and generic bindings (targets are module procedures with a passed object)
+    for t in types:
+        t["binds"], t["gbinds"] = [], []
+    if "bindings" not in excl:
+        for t in types:
+            cands = [p for p in procs if p["mod"] == t["mod"] and p["generic"] is None and p["bound"] is None]
+            if not cands or not ch.bool(1, 3):
+                continue
+            k = ch.count(1, min(3, len(cands)))
+            chosen = ch.shuffle(cands)[:k]
+            for p in chosen:
+                p["bound"] = {"type": t["name"], "extra": None}
+                t["binds"].append({"name": f"b{p['name']}", "target": p["name"]})
+            if k >= 2 and ch.bool(1, 2):
+                for p, at in zip(chosen[:2], ["integer", "real"]):
+                    p["bound"]["extra"] = at
+                t["gbinds"].append({"name": f"gb{t['name']}", "specs": [b["name"] for b in t["binds"][:2]]})
+    # functions (referenced in expressions instead of CALL)
+    for p in procs:
+        if p["generic"] is None and p["bound"] is None and ch.bool(1, 4):
+            p["fn"] = True
+    # internal procedures
+    if "internals" not in excl:
+        for p in procs:
+            if ch.bool(1, 5):
+                for _ in range(ch.count(1, 2)):
+                    p["internals"].append({"name": f"i{sum(len(q['internals']) for q in procs)}", "calls": []})
     # types: extension and composition
     for k, t in enumerate(types):
         i = t["mod"]
         acc = [u for u in types if u["mod"] == i or u["mod"] in mods[i]["uses"]]
-        earlier = [u for u in acc if types.index(u) < k]
+        # (a type with a generic binding is not extended: the inherited copy of the binding is a node of its own
+        #  whose DOT id carries a sequence number that depends on processing order)
+        earlier = [u for u in acc if types.index(u) < k and not u["gbinds"]]
         if earlier and ch.bool(1, 2):
             t["extends"] = ch.choice(earlier)["name"]
         for c in range(ch.count(0, 3)):
@@ -121,7 +150,7 @@ def gen_model(ch: Chooser, excl=()):
     # hidden procedures
     if hidden_mode:
         for p in procs:
-            if p["generic"] is None and ch.bool(1, 3):
+            if p["generic"] is None and p["bound"] is None and ch.bool(1, 3):
                 p["private"] = True
                 feats.add("hidden-procedure")
     # calls
@@ -130,8 +159,17 @@ def gen_model(ch: Chooser, excl=()):
     def targets(modset, own_mod=None):
         out = []
         for p in procs:
+            if p["bound"] is not None:
+                continue
             if p["mod"] == own_mod or (p["mod"] in modset and not p["private"]):
                 out.append(("proc", p["name"]))
+        for t in types:
+            if t["mod"] == own_mod or t["mod"] in modset:
+                for b in t["binds"]:
+                    if not any(b["name"] in g["specs"] for g in t["gbinds"]):
+                        out.append(("bind", t["name"] + "%" + b["name"]))
+                for g in t["gbinds"]:
+                    out.append(("gbind", t["name"] + "%" + g["name"]))
         for g in generics:
             if g["mod"] == own_mod or g["mod"] in modset:
                 out.append(("generic", g["name"]))
@@ -161,6 +199,9 @@ def gen_model(ch: Chooser, excl=()):
             p["use"] = ch.int(i)
         modset = set(mods[i]["uses"]) | ({p["use"]} if p["use"] is not None else set())
         p["calls"] = pick_calls(targets(modset, i), dense_calls)
+        for q in p["internals"]:
+            q["calls"] = pick_calls(targets(modset, i) + [("internal", x["name"]) for x in p["internals"]], dense_calls)
+            p["calls"].append(["internal", q["name"]]) if ch.bool(3, 4) else None
     for q in mpis:
         i = q["mod"]
         s = next(s for s in subs if s["name"] == q["sub"])
@@ -204,6 +245,7 @@ def gen_model(ch: Chooser, excl=()):
         "coloured_edges": ch.bool(1, 4),
         "graph_dir": ch.bool(1, 4),
         "hidden_mode": hidden_mode,
+        "proc_internals": ch.bool(2, 3),
     }
     return {"mods": mods, "types": types, "procs": procs, "generics": generics, "mpis": mpis, "subs": subs,
             "tops": tops, "progs": progs, "bds": bds, "placement": placement, "nfiles": nfiles, "options": options}, feats
@@ -218,12 +260,40 @@ def call_stmt(m, c):
     kind, name = c
     if kind == "proc":
         p = next(p for p in m["procs"] if p["name"] == name)
+        if p.get("fn"):
+            return f"kres = {name}()"
         return f"call {name}({ARGLIT[p['argtype']]})"
+    if kind == "bind":
+        tname, bname = name.split("%")
+        return f"call obj_{tname}%{bname}()"
+    if kind == "gbind":
+        tname, bname = name.split("%")
+        t = next(t for t in m["types"] if t["name"] == tname)
+        g = next(g for g in t["gbinds"] if g["name"] == bname)
+        b = next(b for b in t["binds"] if b["name"] == g["specs"][0])
+        p = next(p for p in m["procs"] if p["name"] == b["target"])
+        return f"call obj_{tname}%{bname}({ARGLIT[p['bound']['extra']]})"
     if kind == "generic":
         g = next(g for g in m["generics"] if g["name"] == name)
         p = next(p for p in m["procs"] if p["name"] == g["specifics"][0])
         return f"call {name}({ARGLIT[p['argtype']]})"
     return f"call {name}()"
+
+
+def local_decls(m, calls, indent):
+    """declarations a caller needs for its calls: objects for type-bound calls, a result variable for functions"""
+    out = []
+    seen = set()
+    for c in calls:
+        if c[0] in ("bind", "gbind"):
+            tname = c[1].split("%")[0]
+            if tname not in seen:
+                seen.add(tname)
+                out.append(f"{indent}type({tname}) :: obj_{tname}")
+        if c[0] == "proc" and "kres" not in seen and next(p for p in m["procs"] if p["name"] == c[1]).get("fn"):
+            seen.add("kres")
+            out.append(f"{indent}integer :: kres")
+    return out
 
 
 def render(m):
@@ -248,6 +318,12 @@ def render(m):
             L += meta_lines(t["meta"], "    ")
             for cname, target, kw in t["comps"]:
                 L.append(f"    {kw}({target}), pointer :: {cname}")
+            if t.get("binds"):
+                L.append("  contains")
+                for b in t["binds"]:
+                    L.append(f"    procedure :: {b['name']} => {b['target']}")
+                for g in t.get("gbinds", []):
+                    L.append(f"    generic :: {g['name']} => " + ", ".join(g["specs"]))
             L.append(f"  end type {t['name']}")
         for g in m["generics"]:
             if g["mod"] != i:
@@ -268,17 +344,42 @@ def render(m):
         if ps:
             L.append("contains")
         for p in ps:
-            rec = "recursive " if any(c == ["proc", p["name"]] for c in p["calls"]) or True else ""
-            arg = "a" if p["argtype"] else ""
-            L.append(f"  {rec}subroutine {p['name']}({arg})")
+            rec = "recursive "
+            args = []
+            if p.get("bound"):
+                args.append("self")
+                if p["bound"]["extra"]:
+                    args.append("a")
+            elif p["argtype"]:
+                args.append("a")
+            word = "function" if p.get("fn") else "subroutine"
+            L.append(f"  {rec}{'integer ' if p.get('fn') else ''}{word} {p['name']}({', '.join(args)})" if not p.get("fn")
+                     else f"  {rec}function {p['name']}() result(res)")
             L += meta_lines(p["meta"], "    ")
             if p["use"] is not None:
                 L.append(f"    use {mods[p['use']]['name']}")
-            if p["argtype"]:
+            if p.get("fn"):
+                L.append("    integer :: res")
+            if p.get("bound"):
+                L.append(f"    class({p['bound']['type']}), intent(in) :: self")
+                if p["bound"]["extra"]:
+                    L.append(f"    {p['bound']['extra']}, intent(in) :: a")
+            elif p["argtype"]:
                 L.append(f"    {p['argtype']} :: a")
+            L += local_decls(m, p["calls"], "    ")
+            if p.get("fn"):
+                L.append("    res = 0")
             for c in p["calls"]:
                 L.append("    " + call_stmt(m, c))
-            L.append(f"  end subroutine {p['name']}")
+            if p.get("internals"):
+                L.append("  contains")
+                for q in p["internals"]:
+                    L.append(f"    recursive subroutine {q['name']}()")
+                    L += local_decls(m, q["calls"], "      ")
+                    for c in q["calls"]:
+                        L.append("      " + call_stmt(m, c))
+                    L.append(f"    end subroutine {q['name']}")
+            L.append(f"  end {word} {p['name']}")
         L.append(f"end module {mod['name']}")
         chunks[m["placement"]["module:" + mod["name"]]].append((0, i, L))
     for k, s in enumerate(m["subs"]):
@@ -294,6 +395,7 @@ def render(m):
             else:
                 L.append(f"  module procedure {q['name']}")
             L += meta_lines(q["impl_meta"], "    ")
+            L += local_decls(m, q["calls"], "    ")
             for c in q["calls"]:
                 L.append("    " + call_stmt(m, c))
             L.append(f"  end subroutine {q['name']}" if q["form"] == "subroutine" else f"  end procedure {q['name']}")
@@ -301,11 +403,13 @@ def render(m):
         chunks[m["placement"]["submodule:" + s["name"]]].append((1, k, L))
     for k, x in enumerate(m["tops"]):
         L = [f"recursive subroutine {x['name']}()"] + meta_lines(x["meta"], "  ") + use_lines(x["uses"])
+        L += local_decls(m, x["calls"], "  ")
         L += ["  " + call_stmt(m, c) for c in x["calls"]]
         L.append(f"end subroutine {x['name']}")
         chunks[m["placement"]["top:" + x["name"]]].append((2, k, L))
     for k, g in enumerate(m["progs"]):
         L = [f"program {g['name']}"] + meta_lines(g["meta"], "  ") + use_lines(g["uses"])
+        L += local_decls(m, g["calls"], "  ")
         L += ["  " + call_stmt(m, c) for c in g["calls"]]
         L.append(f"end program {g['name']}")
         chunks[m["placement"]["program:" + g["name"]]].append((3, k, L))
@@ -389,11 +493,23 @@ class Ref:
         # ---- calls
         hidden = {p["name"] for p in m["procs"] if p["private"] and o["hidden_mode"]}
         pbyname = {p["name"]: p for p in m["procs"]}
+        ibyname = {q["name"]: (q, p) for p in m["procs"] for q in p.get("internals", [])}
+        show_internals = o.get("proc_internals", True)
+        tbyname = {t["name"]: t for t in m["types"]}
+        self.owner = {}
 
         def node_of(c):
             kind, name = c
             # a call to a top-level procedure of the project has no visible declaration in the caller: the callee
             # stays plain text (properties C07/C08), i.e. a node named like the routine, not the documented entity
+            if kind == "bind":
+                # a simple binding is not a node: the call is shown as a call of the procedure it is bound to
+                tname, bname = name.split("%")
+                return "proc~" + next(b for b in tbyname[tname]["binds"] if b["name"] == bname)["target"]
+            if kind == "gbind":
+                return "none~" + name.split("%")[1]
+            if kind == "internal":
+                return "none~" + name
             return {"proc": "proc~", "generic": "interface~", "mpi": "interface~", "top": "", "ext": ""}[kind] + name
 
         def visible_callees(calls, seen):
@@ -405,6 +521,9 @@ class Ref:
                 seen.add(c)
                 if c[0] == "proc" and c[1] in hidden:
                     out += visible_callees(pbyname[c[1]]["calls"], seen)
+                elif c[0] == "internal" and (not show_internals or ibyname[c[1]][1]["name"] in hidden):
+                    # (an internal procedure of a procedure that is not displayed is not displayed either)
+                    out += visible_callees(ibyname[c[1]][0]["calls"], seen)
                 else:
                     out.append(c)
             return out
@@ -416,7 +535,7 @@ class Ref:
             if p["name"] in hidden:
                 continue
             n = "proc~" + p["name"]
-            self.labels[n] = plabel(mods[p["mod"]]["name"], p["name"])
+            self.labels[n] = plabel(mods[p["mod"]]["name"], (p["bound"]["type"] + "%" if p.get("bound") else "") + p["name"])
             self.meta[n] = p["meta"]
             self.C.setdefault(n, [])
             self.U.setdefault(n, [])
@@ -424,6 +543,23 @@ class Ref:
                 add(self.U, n, "module~" + mods[p["use"]]["name"], "dashed")
             for c in visible_callees(p["calls"], set()):
                 add(self.C, n, node_of(c), "solid")
+            if show_internals:
+                for q in p.get("internals", []):
+                    qn = "none~" + q["name"]
+                    self.labels[qn] = plabel(p["name"], q["name"])
+                    self.owner[qn] = n
+                    self.C.setdefault(qn, [])
+                    for c in visible_callees(q["calls"], set()):
+                        add(self.C, qn, node_of(c), "solid")
+        for t in m["types"]:
+            for g in t.get("gbinds", []):
+                gn = "none~" + g["name"]
+                self.labels[gn] = plabel(mods[t["mod"]]["name"], t["name"] + "%" + g["name"])
+                self.owner[gn] = "type~" + t["name"]
+                self.C.setdefault(gn, [])
+                for bname in g["specs"]:
+                    target = next(b for b in t["binds"] if b["name"] == bname)["target"]
+                    add(self.C, gn, "proc~" + target, "dashed")
         for g in m["generics"]:
             n = "interface~" + g["name"]
             self.labels[n] = plabel(mods[g["mod"]]["name"], g["name"])
@@ -568,6 +704,9 @@ def expectations(m):
         return max(0, int(meta.get("graph_maxdepth", o["graph_maxdepth"]))), max(1, int(meta.get("graph_maxnodes", o["graph_maxnodes"])))
 
     offset = {n for n, meta in ref.meta.items() if meta.get("graph") == "false"}
+    declared_off = set(offset)
+    # generic bindings of such a type / internal procedures of such a procedure are not registered either
+    offset |= {n for n, owner in ref.owner.items() if owner in offset}
 
     def without_off(rel):
         return {n: [e for e in es if e[0] not in offset and e[1] not in offset] for n, es in rel.items() if n not in offset}
@@ -584,7 +723,7 @@ def expectations(m):
         return seen
 
     def per_entity(n, specs):
-        if n in offset:
+        if n in declared_off:
             exp["nograph"].append(n)
             return
         d, k = limits(n)
@@ -638,7 +777,8 @@ def expectations(m):
         uroots = [n for n in ref.U if n.startswith("module~")] + \
                  [n for n in ref.U if n.startswith(("proc~", "program~", "blockdata~")) and ref.U[n]]
         croots = [n for n in ref.C if n.startswith(("proc~", "interface~"))] + \
-                 [n for n in ref.C if n.startswith("program~") and ref.C[n]]
+                 [n for n in ref.C if n.startswith("program~") and ref.C[n]] + \
+                 [n for n in ref.C if n.startswith("none~") and ref.owner[n] not in off]
         exp["project"] = {
             "usegraph": wide(uroots, ref.U),
             "typegraph": wide([n for n in ref.T], ref.T),
@@ -693,6 +833,7 @@ def gen_case(ch: Chooser, excl=()):
     opts = {"project": "G", "src_dir": "./src", "graph": True, "parallel": 0, "preprocess": False,
             "graph_maxdepth": o["graph_maxdepth"], "graph_maxnodes": o["graph_maxnodes"],
             "show_proc_parent": o["show_proc_parent"], "coloured_edges": o["coloured_edges"], "search": False,
+            "proc_internals": o.get("proc_internals", True),
             "display": ["public"] if o["hidden_mode"] else ["public", "private", "protected"]}
     if o["graph_dir"]:
         opts["graph_dir"] = "./graphs"
@@ -702,6 +843,9 @@ def gen_case(ch: Chooser, excl=()):
     classes += [c for c, on in (("cycle-or-diamond", cyc), ("truncated", trunc), ("table-fallback", any(
         g["table"] for gs in exp["graphs"].values() for g in gs.values())), ("submodules", bool(m["subs"])),
         ("generic-interface", bool(m["generics"])), ("separate-module-procedure", bool(m["mpis"])),
+        ("type-bound-binding", any(t.get("binds") for t in m["types"])), ("generic-binding", any(t.get("gbinds") for t in m["types"])),
+        ("internal-procedure", any(p.get("internals") for p in m["procs"])), ("function-reference", any(p.get("fn") for p in m["procs"])),
+        ("proc_internals", o.get("proc_internals", True)),
         ("graph_dir", o["graph_dir"]), ("show_proc_parent", o["show_proc_parent"]),
         ("project-graphs-exact", exp["project"] is not None)) if on]
     return {"files": files, "expected": exp, "graph_dir": bool(o["graph_dir"]), "classes": classes,
